@@ -26,6 +26,19 @@ namespace tbox {
 namespace http {
 namespace server {
 
+namespace {
+//! 判断 str 是否为某个 method 名称的真前缀，如："GE" 是 "GET" 的前缀
+bool IsMethodPrefix(const std::string &str)
+{
+    for (int i = static_cast<int>(Method::kUnset) + 1; i < static_cast<int>(Method::kMax); ++i) {
+        const std::string name = MethodToString(static_cast<Method>(i));
+        if (str.size() < name.size() && name.compare(0, str.size(), str) == 0)
+            return true;
+    }
+    return false;
+}
+}
+
 RequestParser::~RequestParser()
 {
     CHECK_DELETE_RESET_OBJ(sp_request_);
@@ -46,6 +59,10 @@ size_t RequestParser::parse(const void *data_ptr, size_t data_size)
         auto method_str = str.substr(pos, method_str_end);
         auto method = StringToMethod(method_str);
         if (method == Method::kUnset) {
+            //! 如果还没有收到空格，且已收到的内容是某个 method 的前缀，说明 method 还没收完整，继续等待数据
+            if (method_str_end == std::string::npos && IsMethodPrefix(method_str))
+                return 0;
+
             state_ = State::kFail;
             return pos;
         }
